@@ -116,7 +116,15 @@ impl Record<'_> {
 
     pub(crate) fn alignment_end(&self) -> Option<Position> {
         self.alignment_start.and_then(|alignment_start| {
-            let end = usize::from(alignment_start) + self.alignment_span() - 1;
+            // An unmapped read placed at its mate's position, or a read that consumes no
+            // reference bases, occupies the position it is placed at.
+            let span = if self.bam_flags.is_unmapped() {
+                1
+            } else {
+                self.alignment_span().max(1)
+            };
+
+            let end = usize::from(alignment_start) + span - 1;
             Position::new(end)
         })
     }
